@@ -21,7 +21,8 @@ CHECKS["C17"] = dict(
                 "model entry is found, nothing else is returned, order identical). Does not establish absence."),
     level_note="trusted: the sorted-slice model and vlib.LessV (independent of types.CompareKeys); tower heights seeded through the verif-only VerifSetRand hook",
     quick=[dict(pkg="pure", test="TestC17", shards=16, checks=12000, timeout=300)],
-    thorough=[dict(pkg="pure", test="TestC17", shards=16, checks=60000, timeout=900)],
+    thorough=[dict(pkg="pure", test="TestC17", shards=16, checks=60000, timeout=900),
+              dict(kind="fuzz", pkg="pure", fuzz="FuzzC17", test="TestC17", fuzztime=90)],
 )
 
 CHECKS["C16"] = dict(
@@ -44,6 +45,7 @@ CHECKS["C16"] = dict(
     quick=[dict(pkg="pure", test="TestC16", shards=12, checks=400, timeout=250),
            dict(pkg="lvl", test="TestC16Levels", shards=4, checks=40, timeout=200)],
     thorough=[dict(pkg="pure", test="TestC16", shards=16, checks=12000, timeout=1200),
+              dict(kind="fuzz", pkg="pure", fuzz="FuzzC16", test="TestC16", fuzztime=60),
               dict(pkg="lvl", test="TestC16Levels", shards=16, checks=1500, timeout=1200)],
 )
 
@@ -71,6 +73,7 @@ CHECKS["C13"] = dict(
     quick=[dict(pkg="pure", test="TestC13", shards=12, checks=6000, timeout=300),
            dict(pkg="pure", test="TestC13Conc", race=True, shards=4, checks=500, timeout=300)],
     thorough=[dict(pkg="pure", test="TestC13", shards=16, checks=40000, timeout=1200),
+              dict(kind="fuzz", pkg="pure", fuzz="FuzzC13", test="TestC13", fuzztime=60),
               dict(pkg="pure", test="TestC13Conc", race=True, shards=16, checks=1500, timeout=1200)],
 )
 
@@ -101,6 +104,7 @@ CHECKS["C11"] = dict(
            dict(pkg="pure", test="TestC11Size", shards=2, checks=150, timeout=200),
            dict(pkg="pure", test="TestC11Conc", race=True, shards=6, checks=12, timeout=200, replay_tries=1)],
     thorough=[dict(pkg="pure", test="TestC11", shards=16, checks=30000, timeout=1500),
+              dict(kind="fuzz", pkg="pure", fuzz="FuzzC11", test="TestC11", fuzztime=120),
               dict(pkg="pure", test="TestC11Size", shards=4, checks=3000, timeout=900),
               dict(pkg="pure", test="TestC11Conc", race=True, shards=16, checks=150, timeout=900)],
 )
@@ -213,9 +217,9 @@ CHECKS["C08"] = _e1("C08", "Generated abandonment (Discard, conflict, failing Up
     "any read returning a token of a transaction that never committed; misuse calls must return the documented error (any applicable one) and Get not-found; Update must return the closure's own error; View/Update after Close must return ErrDBClosed without running the closure.",
     "an abandoned write set (discard with writes / failed closure after writes) in a program that flushed and then reopened or compacted.", 110, 2500)
 
-_E2_GEN = ("rapid draws a workload (Config with MemtableByteThreshold 60..400, ImmutableBuffer 0..3, block 1/60/4096, "
+_E2_GEN = ("rapid draws a workload (Config with MemtableByteThreshold 60..20000, ImmutableBuffer 0..3, block 1/60/4096, "
            "L0TargetNum 1..2, LevelRatio 1..2 so that flushes and multi-level compactions happen; 6..12 trap-pool keys; 12..45 "
-           "transactions of 1..5 Set/Delete with unique value tokens, deletes only of existing keys; Close at the end in half "
+           "transactions of 1..5 Set/Delete (one in eight: 6..30 operations with values up to 5000 bytes, so that one commit is many KiB of wal) with unique value tokens, deletes only of existing keys; 6..36 keys; Close at the end in half "
            "of the cases; a follow-up workload). A child process built with the file-system interposer (go build -overlay on "
            "package os: every mutating os call on the DB directory is seen before it starts and after it returned) runs it "
            "with the real background flusher and, in snapshot mode, stores an image of the directory immediately before EVERY "
